@@ -94,13 +94,34 @@ fn get_players<Client: QuakeClient>(bufferer: &mut Buffer<LittleEndian>) -> GDRe
     // while !bufferer.is_remaining_empty() && bufferer.remaining_data() != [0x00]
     while bufferer.remaining_length() != 0 && bufferer.remaining_bytes() != [0x00] {
         let data = bufferer.read_string::<Utf8Decoder>(Some([0x0A]))?;
-        let data_split = data.split(' ').collect::<Vec<&str>>();
+        let data_split = split_player_line(&data);
         let data_iter = data_split.iter();
 
         players.push(Client::parse_player_string(data_iter)?);
     }
 
     Ok(players)
+}
+
+/// Split a player line into its fields: on every space that is not inside double quotes
+/// (a quoted name can contain spaces).
+fn split_player_line(line: &str) -> Vec<&str> {
+    let mut fields = Vec::new();
+    let mut field_start = 0;
+    let mut in_quotes = false;
+    for (position, character) in line.char_indices() {
+        match character {
+            '"' => in_quotes = !in_quotes,
+            ' ' if !in_quotes => {
+                fields.push(&line[field_start .. position]);
+                field_start = position + 1;
+            }
+            _ => {}
+        }
+    }
+    fields.push(&line[field_start ..]);
+
+    fields
 }
 
 pub fn client_query<Client: QuakeClient>(
